@@ -56,7 +56,7 @@ def run_once(L, wl, k, sticky, short, tmo=30):
             if setup:
                 setup(L, d)
             rec = Rec(L)
-            L.h4v_fault_reset(k if k > 0 else -1, 1 if sticky else 0, 1 if short else 0)
+            L.h4v_fault_reset(k if k > 0 else -1, (2 if sticky == "kind" else 1) if sticky else 0, 1 if short else 0)
             body(L, d, rec)
             ncalls = L.h4v_fault_calls()
             delivered = L.h4v_fault_delivered()
@@ -114,7 +114,7 @@ def run_workload(L, wl, every=1, shorts=True):
     for k in range(1, N + 1):
         if every > 1 and k % every and k != N:
             continue
-        for sticky in (False, True):
+        for sticky in (False, True, "kind"):
             for short in ((False, True) if shorts else (False,)):
                 r = run_once(L, wl, k, sticky, short)
                 if "harness_error" in r:
